@@ -121,9 +121,14 @@ def unescape : Nat → List Byte → Option (List Byte)
     else if b = 34 ∨ b < 32 then none
     else (b :: ·) <$> unescape fuel rest
 
-/-- a whole string token: `"` content `"` -/
+/-- drop trailing JSON whitespace -/
+def dropTrailingWs (bs : List Byte) : List Byte := (bs.reverse.dropWhile isWs).reverse
+
+/-- a whole string token: `"` content `"`, possibly followed by whitespace: `json.Unmarshal` tolerates
+    whitespace around the value, and a token can end in spaces when a grapheme cluster swallowed its
+    closing quote (see `SafeAdv`) -/
 def parseStringBytes (bs : List Byte) : Option (List Byte) :=
-  match bs with
+  match dropTrailingWs bs with
   | 34 :: rest =>
     match rest.getLast? with
     | some 34 => unescape (rest.length + 1) rest.dropLast
